@@ -13,11 +13,11 @@ package base
 //@ macro digitVal(b) = ite('0' <= b && b <= '9', int64(b) - '0', ite('a' <= b && b <= 'z', int64(b) - 'a' + 10, ite('A' <= b && b <= 'Z', int64(b) - 'A' + 10, 99)))
 //@ macro goFuncPre(t, c) = (t != nil && c != nil && 0 <= c.nArgs && c.nArgs <= len(c.args))
 //@ func tonumber
-//@   prop C02
+//@   prop C02 C04
 //@   arith int
-//@   requires goFuncPre(t, c)
+//@   requires goFuncPre(t, c) && t.Runtime != nil && c.GoFunction != nil && c.next != nil && len(c.args) == 2
 //@   modifies everything()
-//@   exits any
+//@   exits ContextTerminationError
 //@   loop 1: invariant 2 <= base && base <= 36 && -1 <= rangeindex && rangeindex < len(digits) && forall(j, 0, rangeindex+1, digitVal(digits[j]) < base)
 //@   assert_before_call Push1 inscope: nargs != 1 && typeis(arg2.iface, int64) ==> forall(j, 0, len(digits), digitVal(digits[j]) < base)
 
